@@ -37,7 +37,7 @@ man = {
                  "kind_free_text": "deterministic simulator (seeded step generator, simulated disk/clock/network, replay + ddmin shrinker) linked with the real aergo packages through a build overlay"}],
     "checks": checks,
     "not_applicable": na,
-    "notes": "quick = ~40 s of seeded runs on all cores after a rebuild from /repo's working tree; thorough = ~7 min. Exit 2 = build/harness trouble, never a verdict. Known findings: /verif/known_findings.json.",
+    "notes": "quick = ~40 s of seeded runs on all cores after a rebuild from /repo's working tree; thorough = ~7 min (VERIF_QUICK_S / VERIF_THOROUGH_S / VERIF_SEED override). Every check first re-executes the recorded findings of its property (findings/known/*.json: each listed known finding is re-confirmed and printed as KNOWN-FINDING; findings/*.json: repaired defects, reported again if they return). Exit 2 = build/harness trouble, never a verdict. Known findings: /verif/known_findings.json (status known / fixed). A block delivery that does not return within 45 s of real time is reported as a violation (the node hung); its replay file is replayed in a fresh process by `bin/verif replay`. Sensitivity: seeded/RESULTS.md (94 independently written changes), seeded/FIX_REVERTS.md (every repair undone), DESIGN.md section 11.5.",
 }
 json.dump(man, open(os.path.join(VERIF, "MANIFEST.json"), "w"), indent=1)
 print("MANIFEST.json: %d checks, %d not_applicable" % (len(checks), len(na)))
